@@ -91,7 +91,10 @@ def timing_cases(draw):
     # what keeps arriving: acknowledgements of the client's own keepalives (no respond flag), or keepalives the server
     # originates itself (respond flag set; the client must echo them, and they prove the server alive just as well)
     return {'echo': False, 'L': L, 'P': P, 'gaps': gaps, 'silent': silent, 'msg': draw(st.booleans()),
-            'server_originated': respond_acks}
+            'server_originated': respond_acks,
+            # the handler that receives on_keepalive_timeout is given to the constructor, or installed k loop iterations
+            # after connect() returned
+            'late_handler': draw(st.sampled_from([0, 0, 0, 1, 3, 6]))}
 
 
 def judge_timing(case):
@@ -114,7 +117,8 @@ def judge_timing(case):
         ops.append(['adv', 0.3 * L])
     ops.append(['tick', 2])
     ops.append(['mark', 'end'])
-    prog = {'cfg': {'msg': case['msg'], 'frag': [None, None], 'rbuf': [1024, 1024], 'raw': 's', 'ka': P / 1000.0, 'life': L / 1000.0},
+    prog = {'cfg': {'msg': case['msg'], 'frag': [None, None], 'rbuf': [1024, 1024], 'raw': 's', 'ka': P / 1000.0, 'life': L / 1000.0,
+                    'late_handler': case.get('late_handler', 0)},
             'inter': [], 'ops': ops, 'heal': False}
     tr = run_program(prog)
     out = []
